@@ -244,3 +244,79 @@ func VerifRotation() {
 	<-runDone
 	zzverif.Cover("rotation_done")
 }
+
+// Second generation: the certificate handed out by the first successful RENEWAL has an arbitrary validity window
+// relative to the instant it is issued - backdated by 0..200 s (so possibly already past half of its validity), valid
+// for 2..200 s more. The next renewal is requested not before that certificate's half-life and no later than one
+// minute after it has passed it (at once, i.e. within a minute, when it was already past it when issued).
+//
+//verif:harness prop=C19 name=rotation_second_generation threads=3 sched=delay preempt=1 t_preempt=2 unwind=14 witness=lenient solver=z3-new qtimeout=60
+func VerifRotationSecondGeneration() {
+	vKeys = nil
+	vCSRKeys = nil
+	t0 := zzverif.TimeFromNanos(1_000_000_000_000)
+	clk := zzverifstubs.NewClock(t0)
+	cert1 := vCert(t0, t0.Add(40*time.Second)) // half-life at t0 + 20 s
+	// one symbolic byte each (a 64-bit symbolic factor times 10^9 stalls the solvers; eight variable bits do not)
+	back := int64(zzverif.Bytes("backdated_s", 1)[0])
+	ahead := int64(zzverif.Bytes("remaining_s", 1)[0])
+	zzverif.Assume(back <= 200)
+	zzverif.Assume(ahead >= 2)
+	zzverif.Assume(ahead <= 200)
+	zzverif.Assume((back+ahead)%2 == 0) // whole-second half-life
+	fetches := 0
+	var fetchTimes []time.Time
+	var cert2 *x509.Certificate
+	s := New(Options{Log: vNopLogger(), RequestSVIDFn: func(ctx context.Context, csr []byte) ([]*x509.Certificate, error) {
+		var r []*x509.Certificate
+		vNoteCSR(csr)
+		zzverif.Ghost(func() {
+			fetches++
+			now := clk.Now()
+			fetchTimes = append(fetchTimes, now)
+			switch fetches {
+			case 1:
+				r = []*x509.Certificate{cert1}
+			case 2:
+				cert2 = vCert(now.Add(-time.Duration(back)*time.Second), now.Add(time.Duration(ahead)*time.Second))
+				r = []*x509.Certificate{cert2}
+			default:
+				r = []*x509.Certificate{vCert(now, now.Add(1000*time.Hour))}
+			}
+		})
+		return r, nil
+	}})
+	s.clock = clk
+	ctx, cancel := context.WithCancel(context.Background())
+	runDone := make(chan struct{})
+	go func() {
+		s.Run(ctx)
+		close(runDone)
+	}()
+	zzverif.WaitQuiescent()
+	zzverif.Assert(fetches == 1, "initial_fetch")
+	step := func(until int) {
+		for i := 0; i < 8 && fetches < until; i++ {
+			d, ok := clk.NextDeadline()
+			zzverif.Assert(ok, "rotation_timer_armed")
+			zzverif.Assert(!d.After(clk.Now().Add(time.Minute)), "wakes_at_least_every_minute")
+			clk.AdvanceTo(d)
+			zzverif.WaitQuiescent()
+		}
+	}
+	step(2)
+	zzverif.Assert(fetches >= 2, "renewal_requested")
+	issued := fetchTimes[1]
+	half2 := cert2.NotBefore.Add(cert2.NotAfter.Sub(cert2.NotBefore) / 2)
+	due := half2
+	if due.Before(issued) {
+		due = issued
+	}
+	step(3)
+	zzverif.Assert(fetches >= 3, "second_renewal_requested")
+	zzverif.Assert(!fetchTimes[2].Before(half2), "no_renewal_before_half_life")
+	zzverif.Assert(!fetchTimes[2].After(due.Add(time.Minute)), "renewal_no_later_than_one_minute_after_half_life")
+	cancel()
+	<-runDone
+	zzverif.Cover("rotation_second_generation_done")
+}
